@@ -873,9 +873,14 @@ fn interpret(case: &Case, w: &mut World) {
         builder = builder.auth(u, p).expect("auth once");
     }
     if let Some(wl) = &cfg.will {
-        let mut will = minimq::Will::new(will_topic.as_ref().unwrap(), will_payload.as_ref().unwrap(), &will_props)
-            .expect("generated will is valid")
-            .qos(qos_of(wl.qos));
+        let mut will = match minimq::Will::new(will_topic.as_ref().unwrap(), will_payload.as_ref().unwrap(), &will_props) {
+            Ok(w) => w,
+            Err(e) => {
+                w.trace.config_error = Some(format!("{e:?}"));
+                return;
+            }
+        }
+        .qos(qos_of(wl.qos));
         if wl.retain {
             will = will.retained();
         }
@@ -954,6 +959,7 @@ fn do_step(w: &mut World, tr: &Tr, conn: &mut Connection<'_, '_, SimIo>, at: (us
             let (out, polls, busy) = w.run(tr, conn.publish(p), cancel, TimePolicy::Frozen);
             let res = match out {
                 Outcome::Done(Ok(Some(op))) => {
+                    w.trace.handle_debug.push(format!("{op:?}"));
                     w.ops_h.push(op);
                     w.trace.handles.push(cx.op);
                     OpRes::Handle(w.ops_h.len() - 1)
@@ -1086,6 +1092,7 @@ fn do_step(w: &mut World, tr: &Tr, conn: &mut Connection<'_, '_, SimIo>, at: (us
 fn handle_res<E>(w: &mut World, op: usize, out: Outcome<Result<Op, minimq::Error<E>>>) -> OpRes {
     match out {
         Outcome::Done(Ok(h)) => {
+            w.trace.handle_debug.push(format!("{h:?}"));
             w.ops_h.push(h);
             w.trace.handles.push(op);
             OpRes::Handle(w.ops_h.len() - 1)
